@@ -129,12 +129,12 @@ def gen_groups(r):
     return groups
 
 
-def gen_pair(r, max_chrom=3, max_genes=6, max_tes=30, chrom_names=None):
+def gen_pair(r, max_chrom=3, max_genes=6, max_tes=30, chrom_names=None, min_chrom=1):
     """A well-formed annotation pair + window config. Returns dict."""
     feats = set()
     first, delta, last = gen_windows(r)
     maxw = windows_list(first, delta, last)[-1]
-    nchrom = r.randint(1, max_chrom)
+    nchrom = r.randint(min_chrom, max_chrom)
     names = chrom_names or ["Chr%d" % (i + 1) for i in range(nchrom)]
     names = names[:nchrom]
     groups = gen_groups(r)
@@ -196,3 +196,46 @@ def write_pair(case, gene_path, te_path, cfg_path=None):
         first, delta, last = case["windows"]
         with open(cfg_path, "w") as f:
             f.write("[density_parameters]\nfirst_window_size = %d\nwindow_delta = %d\nlast_window_size = %d\n" % (first, delta, last))
+
+
+def gen_pileup(r):
+    """Deep pile-ups of same-group TEs on one gene flank (C03)."""
+    c = gen_pair(r, max_chrom=2, max_genes=3, max_tes=10)
+    g = r.choice(c["genes"])
+    o, sf = r.choice([(t["order"], t["superfam"]) for t in c["tes"]])
+    w = windows_list(*c["windows"])[-1]
+    for _ in range(r.randint(20, 45)):
+        side = r.random()
+        if side < 0.4:
+            a = g["start"] - 1 - r.randint(0, w + 5)
+        elif side < 0.8:
+            a = g["stop"] + 1 + r.randint(0, w + 5)
+        else:
+            a = r.randint(g["start"], g["stop"])
+        a = max(1, a)
+        b = min(MAXC, a + r.choice([0, 1, 10, w, 3 * w + 7]))
+        c["tes"].append({"chrom": g["chrom"], "start": a, "stop": b, "order": o, "superfam": sf, "strand": "+"})
+    c["features"] = sorted(set(c["features"]) | {"pileup"})
+    r.shuffle(c["tes"])
+    return c
+
+
+def permutations_of(r, case, k):
+    """k row orders of the same annotation pair: sorted, reversed, last-row-first, chromosome-interleaved, random."""
+    out = []
+    def mk(genes, tes, tag):
+        c = dict(case); c["genes"] = list(genes); c["tes"] = list(tes); c["order_tag"] = tag
+        return c
+    gs = sorted(case["genes"], key=lambda g: (g["chrom"], g["start"], g["name"]))
+    ts = sorted(case["tes"], key=lambda t: (t["chrom"], t["start"], t["stop"]))
+    out.append(mk(gs, ts, "sorted"))
+    out.append(mk(gs[::-1], ts[::-1], "reversed"))
+    out.append(mk(gs[-1:] + gs[:-1], ts[-1:] + ts[:-1], "last_row_first"))
+    gi = sorted(case["genes"], key=lambda g: (g["start"], g["chrom"]))
+    ti = sorted(case["tes"], key=lambda t: (t["start"], t["chrom"]))
+    out.append(mk(gi, ti, "chromosome_interleaved"))
+    while len(out) < k:
+        g2, t2 = list(case["genes"]), list(case["tes"])
+        r.shuffle(g2); r.shuffle(t2)
+        out.append(mk(g2, t2, "random"))
+    return out[:k]
